@@ -101,6 +101,12 @@ func c10(c *q.Ctx) {
 		c.Effect(mn, q.Eff{Spec: "peekIterator.Next", Arg: -2, Glob: "p0.front", Req: []q.Cond{{Canon: "(-1 == " + cmp + ")", Sense: true}}, Why: "the smaller key comes first", Rule: "K5"})
 		c.Effect(mn, q.Eff{Spec: "peekIterator.Next", Arg: -2, Glob: "p0.back", Req: []q.Cond{{Canon: "(1 == " + cmp + ")", Sense: true}}, Why: "the smaller key comes first", Rule: "K5"})
 	}
+	if mn != nil {
+		// when one side is exhausted the answer is whether the OTHER side still has an entry (a scan that ends when
+		// the first of its two layers ends drops the tail of the other layer)
+		c.EdgeReturns(mn, q.Cond{Canon: "p0.front.next", Sense: false}, 0, "p0.back.next", "front exhausted: the scan continues as long as the back has entries")
+		c.EdgeReturns(mn, q.Cond{Canon: "p0.back.next", Sense: false}, 0, "p0.front.next OR true", "back exhausted: the scan continues as long as the front has entries (known non-empty here)")
+	}
 	xr := c.Fn(sb + "XMReaderFromRWSet")
 	if xr != nil {
 		c.ArgIs(xr, "MemXModel.Put", 3, "p0.RSet[]", 1, "the verification-time reader holds the declared reads and nothing else")
